@@ -152,6 +152,12 @@ def rand_expr(rnd, depth, k=""):
 
 
 def make_case(d, sp, rs, ls, reqs, rnd, adapter_kind):
+    # now and then one stored rule is malformed: a value too many or one too few (reaching it must be an error)
+    if rs and rnd.random() < 0.12:
+        rs = [list(r) for r in rs]
+        i = rnd.randrange(len(rs))
+        rs[i] = rs[i] + ["extra"] if rnd.random() < 0.6 else rs[i][:-1]
+        rs = [r for r in rs if r]
     if adapter_kind == "M":
         lines = [["p", "p"] + r for r in rs] + [["g", gk] + l for gk, l in ls]
         ad = adapter_M(lines)
